@@ -22,7 +22,7 @@ type FS struct {
 	JournalOn bool  // false: calls are scheduling points and counted, but nothing is recorded (race arm)
 	CurOp     int
 	nextIno   int
-	open      map[*File]bool
+	open      []*File // slice, not a map: map operations are race-instrumented inside the runtime even from norace code
 	maps      []*mapping
 	Calls     [16]uint64 // per Kind
 	Reads     uint64
@@ -38,7 +38,7 @@ var Cur *FS
 
 // NewFS creates a simulated disk rooted at root. base, if non-nil, describes the files already present.
 func NewFS(root string, base *Tree) *FS {
-	f := &FS{Root: filepath.Clean(root), Base: base, JournalOn: true, open: map[*File]bool{}, FreeSpace: -1,
+	f := &FS{Root: filepath.Clean(root), Base: base, JournalOn: true, FreeSpace: -1,
 		FaultsFired: map[string]int{}}
 	if base != nil {
 		f.Live = base.Clone()
@@ -114,6 +114,9 @@ func (s *FS) fault(k Kind, rel string) error {
 //
 //go:norace
 func (s *FS) inoOf(rel string, abs string) (int, bool) {
+	if !s.JournalOn {
+		return 0, false
+	}
 	if ino, ok := s.Live.Names[rel]; ok {
 		return ino, true
 	}
@@ -148,6 +151,7 @@ type File struct {
 	name   string
 	append bool
 	pos    int64
+	closed bool
 }
 
 type FileInfo = os.FileInfo
@@ -199,7 +203,7 @@ func OpenFile(name string, flag int, perm FileMode) (*File, error) {
 		s.nextIno++
 		s.add(Entry{Kind: KCreate, Ino: vf.ino, Path: rel})
 	}
-	s.open[vf] = true
+	s.open = append(s.open, vf)
 	return vf, nil
 }
 
@@ -319,7 +323,7 @@ func (f *File) Close() error {
 	err := f.f.Close()
 	if err == nil {
 		s.add(Entry{Kind: KClose, Ino: f.ino, Path: f.rel})
-		delete(s.open, f)
+		f.closed = true
 	}
 	return err
 }
@@ -380,7 +384,9 @@ func MkdirAll(path string, perm FileMode) error {
 	if err := os.MkdirAll(path, perm); err != nil {
 		return err
 	}
-	if !s.Live.Dirs[rel] && rel != "." {
+	if !s.JournalOn {
+		s.Calls[KMkdir]++
+	} else if !s.Live.Dirs[rel] && rel != "." {
 		s.add(Entry{Kind: KMkdir, Path: rel})
 	}
 	return nil
@@ -553,10 +559,13 @@ func (s *FS) CloseAll() {
 		}
 	}
 	s.maps = nil
-	for f := range s.open {
-		_ = f.f.Close()
+	for _, f := range s.open {
+		if !f.closed {
+			_ = f.f.Close()
+			f.closed = true
+		}
 	}
-	s.open = map[*File]bool{}
+	s.open = nil
 }
 
 // OpenCount returns the number of descriptors and mappings the engine currently holds.
@@ -566,7 +575,12 @@ func (s *FS) OpenCount() (files, mappings int) {
 			mappings++
 		}
 	}
-	return len(s.open), mappings
+	for _, f := range s.open {
+		if !f.closed {
+			files++
+		}
+	}
+	return files, mappings
 }
 
 // Materialize writes tree t into directory dir (which must not exist or be empty).
